@@ -1268,6 +1268,19 @@ int verify_prefix_ex(struct jls_rd_s *rd, const model_t *m, const char *prop, rn
             } else v_count(prop, "utc_iteration_errors", 1);
             free(c.e);
         }
+        /* sample id -> time conversion: a call that failed (the UTC entries could not be loaded) must not make the same call succeed later */
+        {
+            int64_t t1 = 0, t2 = 0;
+            v_api("jls_rd_sample_id_to_timestamp");
+            int32_t c1 = jls_rd_sample_id_to_timestamp(rd, (uint16_t) id, 0, &t1);
+            int32_t c2 = jls_rd_sample_id_to_timestamp(rd, (uint16_t) id, 0, &t2);
+            v_api("");
+            if ((c1 && !c2) || (!c1 && !c2 && t1 != t2)) {
+                snprintf(key, sizeof(key), "prefix|conversion-inconsistent|%s", c1 ? "error-then-success" : "value-changed");
+                v_violation(prop, key, NULL, "signal %d: jls_rd_sample_id_to_timestamp(0) returned %d then %d (%lld, %lld)", id, c1, c2, (long long) t1, (long long) t2); bad++;
+            }
+            v_count(prop, "conversions_checked", 1);
+        }
         /* samples */
         int64_t got = -1;
         v_api("jls_rd_fsr_length");
